@@ -71,7 +71,10 @@ def probe_witness(ctx, w, part):
     tpath = os.path.join(d, "witness.texts.ndjson")
     write_ndjson(tpath, [{"t": t} for t in w["texts"]])
     sub = type(ctx)(ctx.prop, ctx.tier, ctx.seed)
-    res = run_iters(sub, "witness", [{"id": 1, "ast": w["ast"], "ng": w["ng"]}], tpath, part, excl="", violation=False, shards=1,
+    rec = {"id": 1, "ast": w["ast"], "ng": w["ng"]}
+    if "toks" in w:
+        rec["toks"] = w["toks"]
+    res = run_iters(sub, "witness", [rec], tpath, part, excl="", violation=False, shards=1,
                     regex=(part == "x4"), parts=("fi,ci,sp,co,rows" if part == "x4" else None))
     ctx.states += sub.states
     ctx.transitions += sub.transitions
